@@ -2,6 +2,7 @@
    decided by the schedule exploration, see DESIGN.md).  Subject: Model/TokenFlow.v. *)
 From Coq Require Import List Arith Bool.
 From LokyV Require Import Model.TokenFlow Proofs.TokenFlowInv Proofs.TokenFlowThm.
+From LokyV Require Lib.PoolLib Gen.Pool Model.Pool Proofs.PoolThm.
 Import ListNotations.
 
 (* a worker's idle time-out is not a step of the token flow: whatever the instants at which time-outs,
@@ -25,3 +26,25 @@ Proof.
   inversion H; subst. auto.
 Qed.
 Print Assumptions C07_sentinel_exit_holds_no_task.
+
+(* control side (Model/Pool.v, lists regenerated from the source): an idle exit neither breaks the pool nor touches a future; when
+   the manager reaps it while work waits it refills the pool; and submit() registers the job BEFORE it tops the pool up, so an
+   exit that lands in between is seen by the manager (pending work) or by the submit itself (short pool) *)
+Theorem C07_idle_exit_is_not_a_break :
+  forall p i, Pool.broken (Pool.step p (Pool.IdleExit i)) = Pool.broken p /\ Pool.pending (Pool.step p (Pool.IdleExit i)) = Pool.pending p.
+Proof. exact PoolThm.idle_exit_is_not_a_break. Qed.
+Print Assumptions C07_idle_exit_is_not_a_break.
+Theorem C07_reap_refills_when_work_waits :
+  forall p i, Pool.in_loop p = true -> nth_error (Pool.procs p) i = Some Pool.WExited -> Pool.user p = true -> Pool.pending p <> 0 ->
+    length (Pool.procs p) <= Pool.maxw p ->
+    length (Pool.procs (Pool.step p (Pool.Reap i))) = Pool.maxw p /\ Pool.broken (Pool.step p (Pool.Reap i)) = Pool.broken p
+    /\ Pool.pending (Pool.step p (Pool.Reap i)) = Pool.pending p.
+Proof. exact PoolThm.reap_refills_when_work_waits. Qed.
+Print Assumptions C07_reap_refills_when_work_waits.
+Theorem C07_submit_registers_before_topping_up :
+  PoolThm.index_of PoolLib.SAddPending Pool.submit_prog < PoolThm.index_of PoolLib.SEnsureRunning Pool.submit_prog.
+Proof. exact PoolThm.submit_registers_before_topping_up. Qed.
+Print Assumptions C07_submit_registers_before_topping_up.
+Theorem C07_structure : Pool.clean_exit_reads_counters_after_the_pop_and_respawns_when_work_waits = true.
+Proof. reflexivity. Qed.
+Print Assumptions C07_structure.
